@@ -326,3 +326,9 @@ def _unjson(v, t):
     if t == T_DATE:
         return datetime.date.fromisoformat(v)
     return v
+
+
+def generate():
+    """translator tie: regenerate coq/Gen/SrcEval.v from the source of the imported code (py2mini)"""
+    from . import gen_src
+    return gen_src.generate('eval')
